@@ -393,13 +393,17 @@ def run(res, tier, seed):
         "harness re-composes main()'s start-up: writer, buffer, SetWAL in the source order checked each run; the recovery "
         "statements themselves are copied verbatim from the current cmd/arc/main.go",
         "timestamps generated from time.Now (requests without a time) are outside the compared domain",
+        "storage faults: the event 'recovery while the storage rejects every write under one directory' is in the model and in the "
+        "correspondence (real ArrowBuffer.FlushAll as main()'s FlushReplayed hook, 8 shards, faulting wrapper around the real LocalBackend, "
+        "healthy restart afterwards; oracle unchanged) but NOT in the histories of the crash theorems (ev_guard excludes it): a failing "
+        "schema-change flush during replay is only logged by the code, so no unconditional statement holds under storage faults (C07)",
     ]
     if tier == "thorough":
         ok, _ = vlib.coqchk_stage(res, MODULES)
         if not ok:
             failed.append(("coqchk", "coqchk did not accept the compiled development"))
 
-    n = 480 if tier == "quick" else 6000
+    n = 400 if tier == "quick" else 6000
     wit = witness_cases()
     cases = load_corpus() + [c for _, c in wit] + regression_cases() + fault_cases(rng, 24 if tier == "quick" else 300)
     nfixed = len(cases)
